@@ -15,35 +15,35 @@ CLAIMED = {
          "Wall clock not stepped; eps = 2ns + |T|*2^-52 for float rounding; distribution thresholds have negligible false-alarm probability (<1e-90).",
          "2/C10"),
  "C11": ("runtime monitor on the real janitor goroutine, paused between cycles at its EvictionNeeded call-out, vs. reference model of survivors",
-         "Exploration: the real janitor (1ms interval) is stepped cycle by cycle; after each cycle Len/Walk/Read are compared with a model in which exactly the entries expired more than DeleteExpiredAfter ago disappear. Covers finite and Unlimited TimeToLive (including late first per-call TTL) on the three backends.",
+         "Exploration: the real janitor (1ms interval) is stepped cycle by cycle; after each cycle Len/Walk/Read are compared with a model in which exactly the entries expired more than DeleteExpiredAfter ago disappear (finite and Unlimited TimeToLive, late first per-call TTL, hostile metric call-outs of DeleteAll/ExpireAll performing racing writes); further families: real-time aging across a 30ms DeleteExpiredAfter with sound brackets, free-running janitor stress (fresh rewrites and ExpireAll-renewed entries must survive), and the janitor parked at the verif pause point between inspecting and deleting an entry (SyncMap).",
          "Gate relies on the janitor consulting EvictionNeeded once per cycle when no limit is breached (true for the code under test; a watchdog turns a missing call-out into inconclusive). TTL class margins >=1s vs. a 1h boundary.",
          "2/C11"),
  "C12": ("runtime monitor on the real janitor goroutine gated at EvictionNeeded / Stats.Add(cache_evict); amount, metric and rank-order oracle",
-         "Exploration: seeded (limit, size, fraction, strategy, trigger, access history) cases; exactly one eviction cycle is let through and judged for trigger, amount (within one entry), cache_evict metric and strategy order (max rank removed <= min rank kept, ties free).",
+         "Exploration: seeded (limit, size, fraction, strategy, trigger incl. sys-memory limits, access history, long-expired entries purged by the same cycle, content arriving by Write / Dump+Restore / ExpireAll) cases; exactly one eviction cycle is let through and judged for trigger, amount (within one entry), cache_evict metric and strategy order (max rank removed <= min rank kept, ties free); plus a convergence family (free-running janitor, late writes over the limit, bounded progress).",
          "Harness-side rank bookkeeping (expiry from a pre-eviction Walk, last-read order with a strictly advancing clock, read counts) is the trusted oracle; only fresh entries are read so 'served' is unambiguous.",
          "2/C12"),
  "C13": ("differential runtime monitor: Walk/Read of restored caches vs. source across all backend pairings and relay chains",
-         "Exploration: seeded entry sets (0..400, hostile keys, nil/zero/populated registered values, with/without expiry) are dumped and restored across every pairing and relayed 1..4 times; every relay must equal the source; truncated streams must yield a subset.",
+         "Exploration: seeded entry sets (0..400, hostile keys, nil/zero/populated registered values, no / near / far-past / far-future expiry) are dumped and restored across every pairing and relayed 1..4 times into receivers of varying configuration (Unlimited/default TTL, small count limit); every relay must equal the source; concurrent dumps of one cache must both be complete; truncated streams must yield a subset.",
          "reflect.DeepEqual over a value alphabet chosen to avoid gob's nil-vs-empty ambiguity is the equality; gob itself is trusted.",
          "2/C13"),
  "C15": ("reference-model monitor with complete deleter-fault enumeration per scenario, plus concurrent stress with conservation oracle",
-         "Fault enumeration inside exploration: each seeded incidence structure is rebuilt and run fault-free and once per delete position with an injected failure at that position, followed by recovery and retry; completeness, precision, returned count (vs. measured removals), error identity and no-panic are judged. Concurrent AddLabels/AddCache/Invalidate runs are judged at quiescence (nothing labelled survives; counts add up).",
+         "Fault enumeration inside exploration: each seeded incidence structure (with cache operations between labelling and invalidation) is rebuilt and run fault-free and once per delete position with an injected failure at that position, followed by recovery and retry; a hostile deleter labels another key from inside Delete; completeness, precision, returned count (vs. measured removals), error identity and no-panic are judged. Concurrent AddLabels/AddCache/Invalidate runs are judged at quiescence (nothing labelled survives; counts add up).",
          "Index model in c15_labels.go is the oracle; labels consumed by a successful invalidation are not re-applied by the workloads.",
          "2/C15"),
  "C17": ("offline checker over callback log and caller timestamps (ordering, exactly-once, non-overlap, sound monotonic-clock bracketing)",
-         "Exploration: seeded bursts and sequences of 1..32 callers, 0..5 callbacks, several SkipIntervals; accepted calls run all callbacks once in order, rejected run none, groups never interleave, consecutive accepted calls are >= SkipInterval apart (bracketing inequality), and a call that begins >= SkipInterval after every earlier call returned must be accepted.",
+         "Exploration: seeded bursts, sequences and chain patterns (slow first run, caller queued on the lock) of 1..32 callers, 0..5 callbacks (one may be registered during a run), several SkipIntervals (also changed between phases); accepted calls run all registered callbacks once in order, rejected run none, groups never interleave, consecutive accepted calls are >= SkipInterval apart (bracketing inequality tightened by the end of the previous run), and a call that begins >= SkipInterval after every earlier call returned must be accepted.",
          "Only bracketing inequalities on the monotonic clock are used, so load cannot cause false alarms (it only reduces detection power).",
          "2/C17"),
  "C01": ("online monitor of builder [entry,exit] intervals over steered (seeded scheduler at every call-out) and free-running stress executions of the real Failover",
-         "Exploration: thousands of seeded schedules of 2..12 concurrent Gets over 1..3 keys across the configuration product, both APIs, fault injection and caller misbehaviour; an online monitor flags any instant with two builders active for one key. Evidence counts contended runs and distinct schedule signatures.",
+         "Exploration: thousands of seeded schedules of 2..12 concurrent Gets over 1..3 keys across the configuration product, both APIs, fault injection, caller misbehaviour (buffer-reuse family), context-error and nil builder outcomes, slow builders with UpdateTTL=1ms; an online monitor flags any instant with two builders active for one key. Evidence counts contended runs and distinct schedule signatures.",
          "Interleavings inside library critical sections are not explored (atomic by construction); the steered executor uses runtime.Stack statuses and only ever yields 'inconclusive' on malfunction.",
          "2/C01"),
  "C02": ("offline provenance checker over recorded event logs with unique tokens; backend fault injection at every call index in turn",
-         "Exploration with embedded fault enumeration: every value/error returned by Get must be a token/error of the same key that was pre-populated, built (and finished before the return) or injected; one third of the cases are re-run with a backend failure at every call index.",
+         "Exploration with embedded fault enumeration: every value/error returned by Get must be a token/error of the same key that was pre-populated, built (and finished before the return) or injected by the backend; one third of the cases are re-run with a backend failure at every call index; a backend mode reports expiry as the bare ErrExpired sentinel.",
          "Token uniqueness per run; harness builders never produce zero values.",
          "2/C02"),
  "C03": ("complete enumeration of the finite decision table against the real code, judged by documented outcome classes plus differential agreement across APIs/backends",
-         "Exhaustive over the table stated in the property (168 consistent cells x 3 pairings x repetitions): result class, builder invocation count/timing, backend content, failure cache and lock state after quiescence.",
+         "Exhaustive over the table stated in the property (168 consistent cells x 3 pairings x repetitions alternating SyncRead and plain / pre-cancelled / deadlined caller contexts): result class, builder invocation count/timing, backend content, failure cache and lock state after quiescence; plus a pass in which the entry is deleted while the builder runs.",
          "Expected classes are transcribed from README/FailoverConfig docs (c03_table.go); for 'failure cached + stale value' both documented readings are accepted.",
          "2/C03"),
  "C04": ("logical-deadlock detection under the steered executor, lock-table invariant hook at quiescence, black-box follow-up Gets, write-placement checker over the event log",
@@ -51,31 +51,31 @@ CLAIMED = {
          "Unbounded liveness is restated as deadlock freedom on explored schedules and bounded progress in free mode.",
          "2/C04"),
  "C05": ("event-log monitors (no build after stored success with SyncRead; no build within 0.9*FailedUpdateTTL of a failure) plus sequential executable model",
-         "Exploration: concurrent SyncRead bursts (steered/free), sequential scripts with the failing invocation at every position x FailedUpdateTTL {default,1h,-1} judged against an executable model, failure-cache expiry bracket and rebuild after simulated elapse (Errors.ExpireAll).",
+         "Exploration: concurrent bursts with and without SyncRead (steered/free, yield points also at the failure-cache read), sequential scripts with the failing invocation at every position x FailedUpdateTTL {default,1h,-1} judged against an executable model, re-expire sequences (stale value, failing rebuild, repeated ExpireAll), failure-cache expiry bracket and rebuild after simulated elapse (Errors.ExpireAll).",
          "Suppression is only judged for events whose monotonic timestamps are within 0.9*FailedUpdateTTL of the failure; SkipRead is documented to bypass cache reads including the failure cache.",
          "2/C05"),
  "C06": ("context observation inside harness builders/backend wrapper vs. reference TTL fold; detached-context assertions for background builds; stored expiry vs. C10 interval",
-         "Exploration: seeded caller TTL cells and builder WithTTL update lists over all Get paths (cold, sync update, background update, waiter), cancelled/pre-cancelled/deadlined callers, SkipRead on fresh entries.",
+         "Exploration: seeded caller TTL cells and builder WithTTL update lists over all Get paths (cold, sync update, background update, waiter), cancelled/pre-cancelled/deadlined callers, SkipRead on fresh entries, ObserveMutability with builders returning the already cached value; per-Get accounting of the refresh store and the final store.",
          "Without a caller TTL cell no propagation is promised: backend default or builder minimum accepted.",
          "2/C06"),
  "C16": ("Go race detector (+checkptr) over generated concurrent client programs; report blocks counted from GORACE logs; runtime fatal errors detected by child death",
-         "Exploration / non-detection: every unordered pair (incl. self-pairs) of the public-operation catalogue on shared backends (3 kinds x 3 strategies, janitor at 1ms, items reporter) and Failover/FailoverOf/Invalidator/HTTP export, plus seeded k-subsets, each op looped by two goroutines under -race with halt_on_error=0; any report with a library frame or a runtime concurrent-map fault is a violation.",
+         "Exploration / non-detection: every unordered pair (incl. self-pairs) of the public-operation catalogue on shared backends (3 kinds x 3 strategies, janitor at 1ms, items reporter) and Failover/FailoverOf (also over a fault-injecting user backend)/Invalidator/HTTP export/a failing user Deleter, plus seeded k-subsets, each op looped by two goroutines under -race with halt_on_error=0; any report with a library frame or a runtime concurrent-map fault is a violation.",
          "The race detector only sees executed accesses; claim is 'no report in the programs x repetitions executed'. A report without a library frame fails the check as broken.",
          "2/C16"),
  "C08": ("porcupine linearizability checking of recorded client-boundary histories against a per-key nondeterministic register model, plus a walk monitor",
-         "Exploration: thousands of short concurrent histories (2..16 clients, 3..6 keys incl. a hash-colliding pair, four op-mix profiles, with/without LRU/LFU and with the real janitor evicting) are recorded with one atomic logical clock and checked per key; batch operations, evictions and collision-partner writes are inserted into each affected partition as (possibly nondeterministic) operations; Walk is checked for foreign entries and for exactly-once reporting of keys stable during the walk.",
+         "Exploration: thousands of short concurrent histories (2..16 clients, 3..6 keys incl. a hash-colliding pair, op-mix profiles incl. one restricted to the colliding pair, with/without LRU/LFU, with the real janitor evicting or running its cleanup pass over long-expired entries) are recorded with one atomic logical clock and checked per key; batch operations, evictions and collision-partner writes are inserted into each affected partition as (possibly nondeterministic) operations; Walk is checked for foreign entries and for exactly-once reporting of keys stable during the walk.",
          "Model in c08_lin.go; batch ops act on each key at one instant within the call; checker timeout = inconclusive.",
          "2/C08"),
  "C09": ("collision-slot reference model over constructed xxhash64 collisions; buffer-overwrite-after-call monitor; gated background build scenario",
-         "Exploration: seeded op sequences over families of 2..4 constructed colliding 64-byte keys on all backends, through backends, Failover/FailoverOf, label index and Dump/Restore; after every key-taking call the passed buffer is overwritten and stored keys/labels/background-build targets are re-checked.",
+         "Exploration: seeded op sequences over families of 2..4 constructed colliding 64-byte keys on all backends and eviction strategies, through backends, Failover/FailoverOf, label index and Dump/Restore; after every key-taking call the passed buffer is overwritten and stored keys/labels/background-build targets are re-checked; concurrent rounds Delete(k1) vs Write(k2) on a colliding pair (ownership oracle).",
          "Collision construction is specific to xxhash64 seed 0 and verified at run time (Sum64 equality asserted).",
          "2/C09"),
  "C14": ("in-process RoundTripper driving the real Export handler and Import; differential content check; child processes for types-hash determinism and a two-process transfer",
-         "Exploration: seeded name subsets on both sides, all backend families, transport faults (tampered hash, truncated/failing body); types hash evaluated in fresh child processes over permutations/multisets of a 12-type pool; a separate exporter process with a different type set must be refused.",
+         "Exploration: seeded name subsets on both sides (incl. names needing query escaping), all backend families, transport faults on all or on one cache only (tampered hash, truncated/failing body; the transport honours the request context); types hash evaluated in fresh child processes over permutations/multisets/variadic groupings of a 12-type pool; a separate exporter process with a different type set must be refused.",
          "GobTypesHashReset (test helper) is out of scope; gob and net/http are trusted.",
          "2/C14"),
  "C18": ("harness StatsTracker ledger vs. ground truth from the harness' own operation/event log at quiescence (conservation / exactly-once)",
-         "Exploration: backend-only sequential and concurrent workloads (each goroutine owns its keys so removals are known exactly; ExpireAll/DeleteAll at barriers) and Failover/FailoverOf runs from the C01 generator (steered and free); every metric and the documented sums are compared per name label.",
+         "Exploration: backend-only sequential and concurrent workloads (each goroutine owns its keys so removals are known exactly; ExpireAll/DeleteAll at barriers), a conservation family (unique keys, racing Delete/DeleteAll: cache_delete == writes - final Len), Failover/FailoverOf runs from the C01 generator (steered and free, cancelling callers, context-error outcomes) and panicking builders; every metric and the documented sums are compared per name label.",
          "No evictions; no backend fault injection in these workloads (cache_refreshed counts attempts).",
          "2/C18"),
 }
